@@ -16,8 +16,9 @@ VISUAL = ("visual", "bvisual")
 
 class World:
     """a few objects per scene moving around a shared image region"""
-    def __init__(self, rng, nscenes, rotated, region=120.0, dense=False, visual=False):
+    def __init__(self, rng, nscenes, rotated, region=120.0, dense=False, visual=False, jump_p=0.05, noises=(0.01, 0.01, 0.05, 0.3, 0.8)):
         self.rng = rng
+        self.jump_p, self.noises = jump_p, noises
         self.visual = visual
         self.dim = rng.choice([4, 4, 8, 12, 20, 3])     # feature dimension (also > 8 and not a multiple of 8: partial last block)
         self.bases = []
@@ -53,7 +54,7 @@ class World:
         if r.random() < 0.15: objs.append(self.new_obj())
         for o in objs:
             o["x"] += o["vx"] + r.uniform(-1, 1); o["y"] += o["vy"] + r.uniform(-1, 1)
-            if r.random() < 0.05: o["vx"], o["vy"] = r.uniform(-25, 25), r.uniform(-25, 25)     # sudden fast move
+            if r.random() < self.jump_p: o["vx"], o["vy"] = r.uniform(-25, 25), r.uniform(-25, 25)     # sudden fast move
             if self.visual and r.random() < 0.06:                                                  # sudden change of size: the detection's own box and the
                 o["h"] = min(60.0, max(5.0, o["h"] * r.choice([0.35, 0.5, 2.0])))                  # track's smoothed box fall on different sides of the area threshold
             if r.random() < 0.2: continue                                                          # missed detection
@@ -84,11 +85,11 @@ class World:
         if r.random() < 0.15:
             return ((q, None),)
         emb = o["emb"] if o is not None else [r.uniform(-1, 1) for _ in range(self.dim)]
-        noise = r.choice([0.01, 0.01, 0.05, 0.3, 0.8])        # 0.8: the same object seen with a similarity well below 1
+        noise = r.choice(self.noises)        # 0.8: the same object seen with a similarity well below 1
         return ((q, [f32(v + r.uniform(-noise, noise)) for v in emb]),)
 
 
-def new_line(rng, kind, shards=None, vshards=None, hist=None, max_idle=None, method=None, minconf=None, constraints=None, own_p=0.4):
+def new_line(rng, kind, shards=None, vshards=None, hist=None, max_idle=None, method=None, minconf=None, constraints=None, own_p=0.4, vkind=None, easy_votes=False):
     shards = shards or rng.randint(1, 4)
     vshards = vshards or rng.randint(1, 3)
     hist = hist or rng.randint(1, 5)
@@ -104,13 +105,13 @@ def new_line(rng, kind, shards=None, vshards=None, hist=None, max_idle=None, met
     c = " ".join([str(len(cons))] + ["%d %s" % (g, f32tok(l)) for g, l in cons])
     line = "trk new %s %d %d %d %d %s %s %s" % (kind, shards, vshards, hist, max_idle, m, f32tok(minconf), c)
     if kind in VISUAL:
-        vk = rng.choice([("euclid", rng.choice([0.15, 0.3, 0.6])), ("cosine", rng.choice([0.9, 0.98, 0.3, 0.2]))])
+        vk = vkind or rng.choice([("euclid", rng.choice([0.15, 0.3, 0.6])), ("cosine", rng.choice([0.9, 0.98, 0.3, 0.2]))])
         max_obs = rng.randint(1, 8)
-        min_len = rng.randint(1, min(3, max_obs))
+        min_len = 1 if easy_votes else rng.randint(1, min(3, max_obs))
         own = rng.random() < own_p
         # the two own-area thresholds are set independently: both, only `use`, only `collect`
         own_use, own_col = rng.choice([(0.3, 0.6), (0.6, 0.3), (0.5, 0.0), (0.0, 0.5), (0.7, 0.0), (0.0, 0.7)]) if own else (0.0, 0.0)
-        line += " V %s %s %d %d %d %s %s %s %s %s" % (vk[0], f32tok(vk[1]), rng.randint(1, 3), min_len, max_obs,
+        line += " V %s %s %d %d %d %s %s %s %s %s" % (vk[0], f32tok(vk[1]), 1 if easy_votes else rng.randint(1, 3), min_len, max_obs,
                                                       f32tok(rng.choice([0.0, 0.3, 0.5])), f32tok(rng.choice([0.0, 0.5, 0.7])),
                                                       f32tok(rng.choice([0.0, 100.0, 400.0])),
                                                       f32tok(own_use), f32tok(own_col))
@@ -126,9 +127,9 @@ def predict_line(scenes):
     return " ".join(parts)
 
 
-def history(rng, kind, nsteps, nscenes=None, api_mix=True, **kw):
+def history(rng, kind, nsteps, nscenes=None, api_mix=True, world_kw=None, **kw):
     nscenes = nscenes or rng.randint(1, 3)
-    world = World(rng, nscenes, rotated=rng.random() < 0.4, dense=rng.random() < 0.3, visual=kind in VISUAL)
+    world = World(rng, nscenes, rotated=rng.random() < 0.4, dense=rng.random() < 0.3, visual=kind in VISUAL, **(world_kw or {}))
     lines = [new_line(rng, kind, **kw)]
     batch = kind.startswith("b")
     for _ in range(nsteps):
